@@ -156,7 +156,31 @@ theorem C12_dollar_in_name_error (env : Env) (s b a sc nm : Str) (hfuel : 0 < en
   unfold resolveValue
   rw [hn, expandRec, expandValue, hes]
 
-/-! ## `findURI` on a well-formed token string returns exactly the first real reference -/
+/-- the same for a reference without scheme (`${a$b}`) under a default scheme -/
+theorem C12_dollar_in_name_error_default (env : Env) (s b a d nm : Str) (hfuel : 0 < env.fuel)
+    (hf : findURI env.mode env.defaultScheme.isSome s = some (b, nm, a))
+    (hdflt : env.defaultScheme = some d) (hnc : hasColon nm = false)
+    (hv : validScheme d = true) (hd : hasDollar nm = true) :
+    resolveValue env (.str s) = .error [.dollarInName] := by
+  have hdec := C12_findURI_sound hf
+  have ho : hasOpen s = true := by
+    rw [hdec]
+    simpa [List.append_assoc] using hasOpen_append_open b (nm ++ '}' :: a)
+  have hcl : hasClose s = true := by rw [hdec]; simp [hasClose]
+  have hexp : expandURI env nm = .error .dollarInName := by
+    unfold expandURI
+    have hsp := splitColon_append d nm (hasColon_of_validScheme d hv)
+    simp only [hnc, hdflt, Option.getD_some]
+    simp [hsp, hv, hd]
+  have hes : expandStr env s = .error [.dollarInName] := by
+    unfold expandStr
+    simp only [ho, hcl, Bool.not_true, Bool.or_self, Bool.false_eq_true, if_false]
+    unfold findAndExpandURI
+    rw [hf]
+    simp only [hexp, ite_self]
+  obtain ⟨n, hn⟩ : ∃ n, env.fuel = n + 1 := ⟨env.fuel - 1, by omega⟩
+  unfold resolveValue
+  rw [hn, expandRec, expandValue, hes]
 
 /-! ## one round of expansion, and the final un-escaping -/
 
@@ -209,25 +233,8 @@ provider's string, `$$` ↦ `$` protecting what follows, for every well-formed t
 references is below the loop bound -/
 def C12_tokens_full (mode : Mode) : Prop :=
   ∀ (env : Env) (toks : List Tok) (w : Str), env.mode = mode → tokOK env toks = true →
-    numRefs toks < env.fuel → sem env toks = some w →
+    numRefs toks < env.fuel → 0 < nonRefLen toks → sem env toks = some w →
     resStr (resolveValue env (.str (render toks))) = some w
-
-/-- what is proved of `C12_tokens_full .fixed` for ALL well-formed token lists: (i) the full statement when the
-list has no reference token (any mix of `$$`, escaped references, stray braces, lone `$`); (ii) with references,
-one round replaces exactly the first real reference, in place, by the provider's string.  NOT proved: the
-composition of (ii) over all rounds followed by the un-escaping (re-tokenising the substituted text); that part
-of the full statement is checked by the differential and by the `tokens` oracle on every run. -/
-theorem C12_tokens_partial (env : Env) (hmode : env.mode = .fixed) (hfuel : 0 < env.fuel) (toks : List Tok) (w : Str)
-    (h : tokOK env toks = true) (hs : sem env toks = some w) :
-    (numRefs toks = 0 → resStr (resolveValue env (.str (render toks))) = some w) ∧
-    (∀ pre sc nm post, splitFirstRef toks = some (pre, sc, nm, post) →
-      ((render pre).isEmpty = false ∨ (render post).isEmpty = false) →
-      ∃ v, refString env sc nm = some v ∧
-        expandValue env (.str (render toks)) = .ok (.str (render pre ++ v ++ render post), true)) := by
-  refine ⟨fun hn => ?_, fun pre sc nm post hsp hne => ?_⟩
-  · rw [C12_tokens_noref env hmode hfuel toks w h hn hs]; rfl
-  · obtain ⟨v, hv, he⟩ := C12_tokens_round env hmode toks pre post sc nm h hsp hne
-    exact ⟨v, hv, by rw [expandValue]; exact he⟩
 
 def exEnv (mode : Mode) : Env :=
   { mode := mode, schemes := [['e', 'n', 'v']], fuel := 10,
@@ -236,6 +243,8 @@ def exEnv (mode : Mode) : Env :=
       else if sc = ['e', 'n', 'v'] ∧ nm = ['P'] then some ⟨.int 8080, some ['8', '0', '8', '0']⟩
       else if sc = ['e', 'n', 'v'] ∧ nm = ['A'] then
         some ⟨.str ['$', '{', 'e', 'n', 'v', ':', 'A', '}'], some ['$', '{', 'e', 'n', 'v', ':', 'A', '}']⟩
+      else if sc = ['e', 'n', 'v'] ∧ nm = ['M'] then
+        some ⟨.map (.cons ['a'] (.int 1) (.cons ['l'] (.list (.cons (.str ['x']) .nil)) .nil)), some ['{', 'a', ':', ' ', '1', '}']⟩
       else none }
 
 def refX : Tok := .ref (some ['e', 'n', 'v']) ['X']
@@ -247,20 +256,20 @@ def wit1 : List Tok := [.esc, .lit ['{', 'e', 'n', 'v', ':', 'X'], .close, .lit 
 def wit2 : List Tok := [refX, .lit [' '], .esc, .lit ['{', 'e', 'n', 'v', ':', 'X'], .close]
 
 /-- the code at the pinned commit violates the full statement: an escaped reference stops the search … -/
-theorem C12_tokens_full_pinned_fails : ¬ C12_tokens_full .pinned := by
+theorem pinned_tokens_full_fails : ¬ C12_tokens_full .pinned := by
   intro h
-  have := h (exEnv .pinned) wit1 ['$', '{', 'e', 'n', 'v', ':', 'X', '}', ' ', 'f', 'o', 'o'] rfl (by decide) (by decide) (by decide)
+  have := h (exEnv .pinned) wit1 ['$', '{', 'e', 'n', 'v', ':', 'X', '}', ' ', 'f', 'o', 'o'] rfl (by decide) (by decide) (by decide) (by decide)
   revert this
   decide
 
 /-- … and `ReplaceAll` also rewrites the escaped occurrence -/
-theorem C12_tokens_full_pinned_fails_replaceAll :
+theorem pinned_replaceAll_witness :
     resStr (resolveValue (exEnv .pinned) (.str (render wit2))) = some ['f', 'o', 'o', ' ', '$', 'f', 'o', 'o'] ∧
     sem (exEnv .pinned) wit2 = some ['f', 'o', 'o', ' ', '$', '{', 'e', 'n', 'v', ':', 'X', '}'] := by
   decide
 
 /-- the repaired code resolves both witnesses to their meaning (kernel evaluation of the model) -/
-theorem C12_tokens_witnesses_fixed :
+theorem fixed_tokens_witnesses :
     resStr (resolveValue (exEnv .fixed) (.str (render wit1))) = sem (exEnv .fixed) wit1 ∧
     resStr (resolveValue (exEnv .fixed) (.str (render wit2))) = sem (exEnv .fixed) wit2 := by
   decide
@@ -342,5 +351,278 @@ example :
     let b : KVs := .cons ['s'] (.int 2) .nil
     (mergeSources [a, b, a]).lookup ['s'] = some (.int 1) ∧ (mergeSources [a, b]).lookup ['s'] = some (.int 2) :=
   ⟨rfl, rfl⟩
+
+
+/-! # audit follow-up -/
+
+/-! ## all rounds: substituting the first reference keeps the token list well formed -/
+
+/-- all rounds: a well-formed token string that is not a bare reference is expanded to a reference-free
+well-formed token string with the same meaning -/
+theorem expandRec_tokens (env : Env) (hmode : env.mode = .fixed) : ∀ (n : Nat) (ts : List Tok) (fuel : Nat),
+    numRefs ts = n → n < fuel → tokOK env ts = true → 0 < nonRefLen ts →
+    ∃ ts', tokOK env ts' = true ∧ numRefs ts' = 0 ∧ sem env ts' = sem env ts ∧
+      expandRec env fuel (.str (render ts)) = .ok (.str (render ts'))
+  | 0, ts, fuel, hn, hf, hok, _ => by
+    obtain ⟨k, rfl⟩ : ∃ k, fuel = k + 1 := ⟨fuel - 1, by omega⟩
+    refine ⟨ts, hok, hn, rfl, ?_⟩
+    rw [expandRec, expandValue, expandStr_noref env hmode ts hok hn]
+  | n + 1, ts, fuel, hn, hf, hok, hlen => by
+    obtain ⟨k, rfl⟩ : ∃ k, fuel = k + 1 := ⟨fuel - 1, by omega⟩
+    have hsome := splitFirstRef_some_of_numRefs ts (by omega)
+    cases hs : splitFirstRef ts with
+    | none => simp [hs] at hsome
+    | some r =>
+      obtain ⟨pre, sc, nm, post⟩ := r
+      obtain ⟨hts, hpre⟩ := splitFirstRef_eq ts pre post sc nm hs
+      have hsuf : tokOK env (.ref sc nm :: post) = true := tokOK_suffix env _ pre (by rw [← hts]; exact hok)
+      obtain ⟨-, -, hpost, -, -, -, r, v, -, -, hrs, hvd⟩ := ref_facts hsuf
+      have hne : (render pre).isEmpty = false ∨ (render post).isEmpty = false := by
+        have h1 : nonRefLen ts = nonRefLen pre + nonRefLen post := by
+          rw [hts, nonRefLen_append]; simp [nonRefLen]
+        have h2 := nonRefLen_le_render pre
+        have h3 := nonRefLen_le_render post
+        by_cases hp : (render pre).length = 0
+        · right
+          have : 0 < (render post).length := by omega
+          cases hrp : render post with
+          | nil => simp [hrp] at this
+          | cons _ _ => rfl
+        · left
+          cases hrp : render pre with
+          | nil => simp [hrp] at hp
+          | cons _ _ => rfl
+      obtain ⟨v', hv', hround⟩ := C12_tokens_round env hmode ts pre post sc nm hok hs hne
+      have hvv : v' = v := by rw [hrs] at hv'; exact (Option.some.inj hv').symm
+      subst hvv
+      let ts2 := pre ++ (litToks v' ++ post)
+      have hok2 : tokOK env ts2 = true :=
+        tokOK_replace env sc nm post _ (tokOK_litToks env post hpost v' hvd) pre (by rw [← hts]; exact hok)
+      have hn2 : numRefs ts2 = n := by
+        have : numRefs ts = numRefs pre + (numRefs post + 1) := by rw [hts, numRefs_append]; simp [numRefs]
+        simp only [ts2, numRefs_append, numRefs_litToks]; omega
+      have hlen2 : 0 < nonRefLen ts2 := by
+        have h1 : nonRefLen ts = nonRefLen pre + nonRefLen post := by
+          rw [hts, nonRefLen_append]; simp [nonRefLen]
+        simp only [ts2, nonRefLen_append]; omega
+      have hsem2 : sem env ts2 = sem env ts := by
+        rw [hts]
+        apply sem_append_congr
+        rw [sem_litToks]
+        simp only [sem, hrs]
+        cases sem env post <;> rfl
+      have hr2 : render ts2 = render pre ++ v' ++ render post := by
+        simp [ts2, render_append, render_litToks]
+      obtain ⟨ts', h1, h2, h3, h4⟩ := expandRec_tokens env hmode n ts2 k hn2 (by omega) hok2 hlen2
+      refine ⟨ts', h1, h2, h3.trans hsem2, ?_⟩
+      rw [expandRec, expandValue, hround, ← hr2]
+      exact h4
+
+
+theorem C12_tokens_full_fixed : C12_tokens_full .fixed := by
+  intro env toks w hmode hok hfuel hlen hsem
+  obtain ⟨ts', h1, h2, h3, h4⟩ := expandRec_tokens env hmode (numRefs toks) toks env.fuel rfl hfuel hok hlen
+  unfold resolveValue
+  rw [h4]
+  simp only [escapeDollarSigns, resStr, decodeString]
+  rw [unescape_tokens env ts' w h1 h2 (h3.trans hsem)]
+
+/-! ## embedded references in general: innermost first, provider text subject to the same expansion -/
+
+/-- NESTED references are resolved innermost first: in `pre ++ "${" ++ outer ++ "${body}" ++ post` (`outer` without `}`
+and not ending in an odd run of `$`), `findURI` returns the inner reference -/
+theorem C12_nested_innermost_first (mode : Mode) (hd : Bool) (pre outer body post : Str)
+    (hpc : hasClose pre = false) (hoc : hasClose outer = false)
+    (hodd : oddDollarRun (pre ++ '$' :: '{' :: outer) = false)
+    (hb : hasDollar body = false) (hc : hasClose body = false) (hs : hd = true ∨ hasColon body = true) :
+    findURI mode hd (pre ++ '$' :: '{' :: outer ++ '$' :: '{' :: body ++ '}' :: post) =
+      some (pre ++ '$' :: '{' :: outer, body, post) := by
+  have hseg : hasClose ((pre ++ '$' :: '{' :: outer) ++ '$' :: '{' :: body) = false := by
+    rw [hasClose_append, hasClose_append, hpc]
+    have h1 : hasClose ('$' :: '{' :: outer) = false := by simpa [hasClose] using hoc
+    have h2 : hasClose ('$' :: '{' :: body) = false := by simpa [hasClose] using hc
+    simp [h1, h2]
+  have e : pre ++ '$' :: '{' :: outer ++ '$' :: '{' :: body ++ '}' :: post =
+      ((pre ++ '$' :: '{' :: outer) ++ '$' :: '{' :: body) ++ '}' :: post := by simp
+  unfold findURI
+  rw [e, splitOnClose_append _ _ hseg, splitOnClose_close]
+  simp only [List.append_nil, findInSegs, candidate, lastOpen_append_open (pre ++ '$' :: '{' :: outer) body hb]
+  have hcond : (!hd && !hasColon body) = false := by
+    rcases hs with h | h <;> simp [h]
+  simp only [hcond, hodd, joinClose_split]
+  cases mode <;> simp
+
+/-- an EMBEDDED reference is replaced, in place, by the provider's string **whatever that string contains** (references,
+escapes, braces): the round reports `changed`, and the rest of the resolution is the resolution of the substituted string —
+so the provider's text is itself subject to the same expansion and un-escaping (and an unchanged-looking result is still a
+change: a self-reference cannot be mistaken for a fixed point) -/
+theorem C12_embedded_substituted (env : Env) (hmode : env.mode = .fixed) (s before body after v : Str) (r : Retrieved)
+    (hf : findURI env.mode env.defaultScheme.isSome s = some (before, body, after))
+    (hemb : (before.isEmpty && after.isEmpty) = false)
+    (hexp : expandURI env body = .ok r) (hstr : r.asString = some v) :
+    expandValue env (.str s) = .ok (.str (before ++ v ++ after), true) ∧
+    ∀ n, expandRec env (n + 1) (.str s) = expandRec env n (.str (before ++ v ++ after)) := by
+  have hdec := findURI_sound hf
+  have ho : hasOpen s = true := by
+    rw [hdec]; simpa [List.append_assoc] using hasOpen_append_open before (body ++ '}' :: after)
+  have hcl : hasClose s = true := by rw [hdec]; simp [hasClose]
+  have h1 : expandValue env (.str s) = .ok (.str (before ++ v ++ after), true) := by
+    rw [expandValue]
+    unfold expandStr
+    simp only [ho, hcl, Bool.not_true, Bool.or_self, Bool.false_eq_true, if_false]
+    unfold findAndExpandURI
+    rw [hf]
+    simp only [hemb, Bool.false_eq_true, if_false, hexp, hstr, hmode]
+  refine ⟨h1, fun n => ?_⟩
+  rw [expandRec, h1]
+
+/-! ## cycles -/
+
+/-- if every round reports `changed`, resolution ends with "too many recursive expansions", for every loop bound -/
+theorem C12_always_changed_error (env : Env) (P : Val → Prop)
+    (hstep : ∀ v, P v → ∃ v', expandValue env v = .ok (v', true) ∧ P v') :
+    ∀ (n : Nat) (v : Val), P v → expandRec env n v = .error [.tooMany]
+  | 0, _, _ => rfl
+  | n + 1, v, hv => by
+    obtain ⟨v', h1, h2⟩ := hstep v hv
+    rw [expandRec, h1]
+    exact C12_always_changed_error env P hstep n v' h2
+
+/-- an EMBEDDED self-reference (`http://${env:H}:4317` with `H = ${env:H}`, `HOST = host-${env:HOST}`, …): the provider's
+text contains the reference again, so every round finds it again and reports `changed`: always the cycle error, never a
+fixed point, never a hang -/
+theorem C12_embedded_cycle_error (env : Env) (hmode : env.mode = .fixed) (body vpre vpost : Str) (r : Retrieved)
+    (hb : hasDollar body = false) (hc : hasClose body = false)
+    (hs : env.defaultScheme.isSome = true ∨ hasColon body = true)
+    (hexp : expandURI env body = .ok r)
+    (hstr : r.asString = some (vpre ++ '$' :: '{' :: body ++ '}' :: vpost))
+    (hvp : hasDollar vpre = false) (hvc : hasClose vpre = false)
+    (pre post : Str) (hp : hasDollar pre = false) (hpc : hasClose pre = false)
+    (hemb : (pre.isEmpty && post.isEmpty) = false) :
+    resolveValue env (.str (pre ++ '$' :: '{' :: body ++ '}' :: post)) = .error [.tooMany] := by
+  let P : Val → Prop := fun v => ∃ pre post, v = .str (pre ++ '$' :: '{' :: body ++ '}' :: post) ∧
+    hasDollar pre = false ∧ hasClose pre = false ∧ (pre.isEmpty && post.isEmpty) = false
+  have hstep : ∀ v, P v → ∃ v', expandValue env v = .ok (v', true) ∧ P v' := by
+    rintro v ⟨p, q, rfl, h1, h2, h3⟩
+    have hf := findURI_at env.mode env.defaultScheme.isSome p body q h1 h2 hb hc hs
+    have := (C12_embedded_substituted env hmode _ p body q _ r hf h3 hexp hstr).1
+    refine ⟨_, this, p ++ vpre, vpost ++ q, by simp, ?_, ?_, ?_⟩
+    · rw [hasDollar_append, h1, hvp]; rfl
+    · rw [hasClose_append, h2, hvc]; rfl
+    · cases p <;> cases q <;> simp_all
+  unfold resolveValue
+  rw [C12_always_changed_error env P hstep env.fuel _ ⟨pre, post, rfl, hp, hpc, hemb⟩]
+
+/-! ## whole-value references to ANY provider value without `$` (maps and lists included) -/
+
+/-- `${body}` as the whole value, for ANY provider value `raw` without `$` that is not a string — scalars of every YAML
+type, null, maps, lists (the `${file:…}` / `${yaml:…}` case): the result is `expandedValue{raw, original text}`; every
+string-kind target (string, named string, `*string`) receives the original text, an `any` target / `ToStringMap` the
+typed value -/
+theorem C12_typed_whole_any (env : Env) (body : Str) (r : Retrieved) (v : Str)
+    (hb : hasDollar body = false) (hc : hasClose body = false)
+    (hs : env.defaultScheme.isSome = true ∨ hasColon body = true)
+    (hexp : expandURI env body = .ok r) (hstr : r.asString = some v) (hv : hasDollar v = false)
+    (hraw : noDollarVal r.raw = true) (hns : ∀ s, r.raw ≠ .str s) (hfuel : 2 ≤ env.fuel) :
+    resolveValue env (.str ('$' :: '{' :: body ++ ['}'])) = .ok (.expanded r.raw v) ∧
+    decodeString (.expanded r.raw v) = some v ∧ decodePtrString (.expanded r.raw v) = some (some v) ∧
+    decodeAny (.expanded r.raw v) = r.raw := by
+  obtain ⟨n, hn⟩ : ∃ n, env.fuel = n + 2 := ⟨env.fuel - 2, by omega⟩
+  have hu : unescape v = v := unescape_of_noEsc v (hasEsc_of_noDollar v hv)
+  have hin := expandValue_inert env r.raw hraw
+  have hsan : sanitize false r.raw = r.raw := sanitize_inert false r.raw hraw
+  refine ⟨?_, rfl, rfl, ?_⟩
+  · unfold resolveValue
+    rw [hn, expandRec, expandValue, expandStr_whole env body r hb hc hs hexp, hstr]
+    simp only
+    rw [expandRec, expandValue, hin]
+    rw [expandStr_noDollar env v hv]
+    cases hr : r.raw <;> simp_all [noDollarVal, escapeDollarSigns, escVals_inert, escKVs_inert]
+  · simp [decodeAny, sanitize, hsan]
+
+/-! ## statements about `resolve` (the model of `Resolver.Resolve`) itself -/
+
+/-- what `Resolve` returns, in terms of its stages: every source is a map (or null), the leaves of the merged sources are
+taken in sorted key order (a permutation of the flattened merge), each leaf value is `resolveValue` of the merged value
+under the same path, and the result is the un-flattening of these leaves -/
+theorem C12_resolve_ok (env : Env) (srcs : List Val) (m : KVs) (h : resolve env srcs = .ok m) :
+    ∃ ms leaves, srcs.mapM asConf = some ms ∧
+      (sortedLeaves (mergeSources ms)).Perm (flatten [] (mergeSources ms)) ∧
+      Pointwise (fun l o => o.1 = l.1 ∧ resolveValue env l.2 = .ok o.2) (sortedLeaves (mergeSources ms)) leaves ∧
+      m = unflatten leaves := by
+  unfold resolve at h
+  cases hm : srcs.mapM asConf with
+  | none => simp [hm] at h
+  | some ms =>
+    simp only [hm] at h
+    cases hl : resolveLeaves env (sortedLeaves (mergeSources ms)) with
+    | error e => simp [hl] at h
+    | ok leaves =>
+      simp only [hl, Except.ok.injEq] at h
+      exact ⟨ms, leaves, rfl, List.mergeSort_perm _ _, resolveLeaves_ok env _ _ hl, h.symm⟩
+
+/-- a source that is not a map (and not null) makes `Resolve` fail; it never silently drops it -/
+theorem C12_resolve_not_map (env : Env) (srcs : List Val) (h : srcs.mapM asConf = none) :
+    resolve env srcs = .error [.notMap] := by
+  simp [resolve, h]
+
+/-- sources whose merged leaves need no expansion (no `$$`, no complete reference — `C12_literal_unchanged` — or
+non-string values) resolve to the un-flattened sorted leaves of the right-biased merge of the URI list -/
+theorem C12_resolve_plain (env : Env) (srcs : List Val) (ms : List KVs) (hm : srcs.mapM asConf = some ms)
+    (hplain : ∀ l ∈ flatten [] (mergeSources ms), resolveValue env l.2 = .ok l.2) :
+    resolve env srcs = .ok (unflatten (sortedLeaves (mergeSources ms))) := by
+  have hp : ∀ l ∈ sortedLeaves (mergeSources ms), resolveValue env l.2 = .ok l.2 := fun l hl =>
+    hplain l ((List.mergeSort_perm _ _).mem_iff.1 hl)
+  simp [resolve, hm, resolveLeaves_id env _ hp]
+
+/-- a null (empty document) or empty source appended to the URI list changes nothing, at the level of `Resolve` -/
+theorem C12_resolve_null_source (env : Env) (srcs : List Val) :
+    resolve env (srcs ++ [.null]) = resolve env srcs ∧ resolve env (srcs ++ [.map .nil]) = resolve env srcs := by
+  have hnull : asConf .null = some .nil := rfl
+  have hemp : asConf (.map .nil) = some .nil := rfl
+  constructor <;>
+  · unfold resolve
+    rw [List.mapM_append]
+    cases hm : srcs.mapM asConf with
+    | none => simp [hm]
+    | some ms =>
+      simp [hm, hnull, hemp, C12_merge_sources_empty]
+
+/-! non-vacuity of the audit follow-up theorems -/
+example : resStr (resolveValue (exEnv .fixed) (.str (render wit1))) =
+    some ['$', '{', 'e', 'n', 'v', ':', 'X', '}', ' ', 'f', 'o', 'o'] :=
+  C12_tokens_full_fixed (exEnv .fixed) wit1 _ rfl (by decide) (by decide) (by decide) (by decide)
+/-- `x${env:A}` with `A = ${env:A}`: an embedded one-element cycle -/
+example : resolveValue (exEnv .fixed) (.str ['x', '$', '{', 'e', 'n', 'v', ':', 'A', '}']) = .error [.tooMany] :=
+  C12_embedded_cycle_error (exEnv .fixed) rfl ['e', 'n', 'v', ':', 'A'] [] []
+    ⟨.str ['$', '{', 'e', 'n', 'v', ':', 'A', '}'], some ['$', '{', 'e', 'n', 'v', ':', 'A', '}']⟩
+    (by decide) (by decide) (by decide) rfl rfl (by decide) (by decide) ['x'] [] (by decide) (by decide) (by decide)
+/-- `${env:${env:X}}`: the inner reference is found first -/
+example : findURI .fixed false ['$', '{', 'e', 'n', 'v', ':', '$', '{', 'e', 'n', 'v', ':', 'X', '}', '}'] =
+    some (['$', '{', 'e', 'n', 'v', ':'], ['e', 'n', 'v', ':', 'X'], ['}']) :=
+  C12_nested_innermost_first .fixed false [] ['e', 'n', 'v', ':'] ['e', 'n', 'v', ':', 'X'] ['}']
+    (by decide) (by decide) (by decide) (by decide) (by decide) (by decide)
+/-- a map-valued provider result as the whole value -/
+example : decodeString (.expanded (.map (.cons ['a'] (.int 1) (.cons ['l'] (.list (.cons (.str ['x']) .nil)) .nil)))
+    ['{', 'a', ':', ' ', '1', '}']) = some ['{', 'a', ':', ' ', '1', '}'] ∧
+    resolveValue (exEnv .fixed) (.str ['$', '{', 'e', 'n', 'v', ':', 'M', '}']) =
+      .ok (.expanded (.map (.cons ['a'] (.int 1) (.cons ['l'] (.list (.cons (.str ['x']) .nil)) .nil))) ['{', 'a', ':', ' ', '1', '}']) :=
+  ⟨rfl, (C12_typed_whole_any (exEnv .fixed) ['e', 'n', 'v', ':', 'M'] ⟨_, _⟩ _
+    (by decide) (by decide) (by decide) rfl rfl (by decide) (by decide) (by intro s h; cases h) (by decide)).1⟩
+example : resolve (exEnv .fixed) [.map (.cons ['k'] (.str ['v']) .nil), .null] =
+    .ok (unflatten (sortedLeaves (mergeSources [.cons ['k'] (.str ['v']) .nil, .nil]))) :=
+  C12_resolve_plain (exEnv .fixed) _ _ rfl (by
+    intro l hl
+    simp [mergeSources, mergeKVs, KVs.lookup, KVs.set, flatten] at hl
+    subst hl
+    exact C12_literal_unchanged _ _ (by decide) (by decide) (by
+      rintro ⟨a, b, c, h⟩
+      have : hasClose ['v'] = true := by rw [h]; simp [hasClose]
+      revert this; decide))
+
+example : resolveValue { exEnv .fixed with defaultScheme := some ['e', 'n', 'v'] } (.str ['$', '{', 'a', '$', 'b', '}']) =
+    .error [.dollarInName] :=
+  C12_dollar_in_name_error_default _ _ [] [] ['e', 'n', 'v'] ['a', '$', 'b'] (by decide) (by decide) rfl (by decide)
+    (by decide) (by decide)
 
 end OtelVerif.C12
